@@ -322,4 +322,22 @@ theorem frameY_residual_ge (x y : Vec3) (hx : dot3 x x = 1) (hy : dot3 y y < 1 /
       · nlinarith [not_lt.mp h]
     nlinarith [mul_self_nonneg x0, mul_self_nonneg x2]
 
+/-! ### projections of the result records -/
+
+@[simp] theorem mkCon_ret (d : ℝ) (n p : Vec3) : (mkCon d n p).ret = 1 := rfl
+@[simp] theorem mkCon_dist (d : ℝ) (n p : Vec3) : (mkCon d n p).dist = d := rfl
+@[simp] theorem mkCon_normal (d : ℝ) (n p : Vec3) : (mkCon d n p).normal = n := rfl
+@[simp] theorem mkCon_pos (d : ℝ) (n p : Vec3) : (mkCon d n p).pos = p := rfl
+@[simp] theorem mkCon_tangent (d : ℝ) (n p : Vec3) : (mkCon d n p).tangent = (0, 0, 0) := rfl
+@[simp] theorem unchanged_ret (c : PreCon) : c.unchanged.ret = 0 := rfl
+
+def row0 (m : Mat3) : Vec3 := (m.1, m.2.1, m.2.2.1)
+def row1 (m : Mat3) : Vec3 := (m.2.2.2.1, m.2.2.2.2.1, m.2.2.2.2.2.1)
+def row2 (m : Mat3) : Vec3 := (m.2.2.2.2.2.2.1, m.2.2.2.2.2.2.2.1, m.2.2.2.2.2.2.2.2)
+
+/-- the rows of `m` are an orthonormal basis -/
+def Orthonormal (m : Mat3) : Prop :=
+  dot3 (row0 m) (row0 m) = 1 ∧ dot3 (row1 m) (row1 m) = 1 ∧ dot3 (row2 m) (row2 m) = 1 ∧
+  dot3 (row0 m) (row1 m) = 0 ∧ dot3 (row0 m) (row2 m) = 0 ∧ dot3 (row1 m) (row2 m) = 0
+
 end MjProof.Collide
